@@ -55,29 +55,41 @@ example : ePrio c03Force.flags = Tables.force ∧ ePrio c03Std.flags = Tables.st
    combined under the same rule": for ANY two nodes `a` (older) and `b` (newer) meeting in the leaf
    rule (`ConfigNode.on_merge_impl`; any flags, any metadata) the result is `b` unless `a` has the
    STRICTLY higher priority, in which case it is `a` (the Boolean tells whether the result is still
-   the `self` object). The surviving node keeps its own value/children, its own priority, `delete`
-   and inherited flags; its metadata is `{**loser.md, **winner.md}` (`mmerge`, see `C03_md_union`). -/
+   the `self` object). The surviving node (`_replace_other`: flags combined, then its inherited
+   flags handed down to its children again, `propagate`) keeps its own value, the keys / order /
+   data of its children, its own priority, `delete` and inherited flags; its metadata is
+   `{**loser.md, **winner.md}` (`mmerge`, see `C03_md_union`); a surviving leaf is only re-flagged. -/
 theorem C03_leaf_step (a b : Node) :
     (ePrio a.flags > ePrio b.flags →
-      leafRule a b = (a.setFlags (replaceOtherFlags a.flags b.flags), true)) ∧
+      leafRule a b = (propagate (a.setFlags (replaceOtherFlags a.flags b.flags)), true)) ∧
     (¬ ePrio a.flags > ePrio b.flags →
-      leafRule a b = (b.setFlags (replaceOtherFlags b.flags a.flags), false)) ∧
+      leafRule a b = (propagate (b.setFlags (replaceOtherFlags b.flags a.flags)), false)) ∧
     (∀ w l : Node,
-      native (w.setFlags (replaceOtherFlags w.flags l.flags)) = native w ∧
-      (w.setFlags (replaceOtherFlags w.flags l.flags)).children = w.children ∧
-      (w.setFlags (replaceOtherFlags w.flags l.flags)).flags.prio = w.flags.prio ∧
-      ePrio (w.setFlags (replaceOtherFlags w.flags l.flags)).flags = ePrio w.flags ∧
-      (w.setFlags (replaceOtherFlags w.flags l.flags)).flags.del = w.flags.del ∧
-      (w.setFlags (replaceOtherFlags w.flags l.flags)).flags.iDel = w.flags.iDel ∧
-      (w.setFlags (replaceOtherFlags w.flags l.flags)).flags.iNew = w.flags.iNew ∧
-      (w.setFlags (replaceOtherFlags w.flags l.flags)).flags.md = mmerge l.flags.md w.flags.md) ∧
+      native (propagate (w.setFlags (replaceOtherFlags w.flags l.flags))) = native w ∧
+      (nativeList (propagate (w.setFlags (replaceOtherFlags w.flags l.flags))).children = nativeList w.children ∧
+       nativeVals (propagate (w.setFlags (replaceOtherFlags w.flags l.flags))).children = nativeVals w.children) ∧
+      (w.isComp = false → propagate (w.setFlags (replaceOtherFlags w.flags l.flags)) =
+        w.setFlags (replaceOtherFlags w.flags l.flags)) ∧
+      (propagate (w.setFlags (replaceOtherFlags w.flags l.flags))).flags.prio = w.flags.prio ∧
+      ePrio (propagate (w.setFlags (replaceOtherFlags w.flags l.flags))).flags = ePrio w.flags ∧
+      (propagate (w.setFlags (replaceOtherFlags w.flags l.flags))).flags.del = w.flags.del ∧
+      (propagate (w.setFlags (replaceOtherFlags w.flags l.flags))).flags.iDel = w.flags.iDel ∧
+      (propagate (w.setFlags (replaceOtherFlags w.flags l.flags))).flags.iNew = w.flags.iNew ∧
+      (propagate (w.setFlags (replaceOtherFlags w.flags l.flags))).flags.md = mmerge l.flags.md w.flags.md) ∧
     (∀ fa ka fb kb, a = .leaf fa ka → b = .leaf fb kb → ∀ fuel,
       mergeF (fuel + 1) a b = .ok (leafRule a b)) := by
   refine ⟨leafRule_self_wins, leafRule_other_wins, ?_, ?_⟩
   · intro w l
-    rw [flags_setFlags]
-    refine ⟨native_setFlags _ _, ?_, rfl, rfl, rfl, rfl, rfl, rfl⟩
-    cases w <;> rfl
+    rw [flags_propagate, flags_setFlags]
+    refine ⟨by rw [nativeOf_propagate]; exact native_setFlags _ _, ?_, ?_, rfl, rfl, rfl, rfl, rfl, rfl⟩
+    · have hc : (w.setFlags (replaceOtherFlags w.flags l.flags)).children = w.children := by
+        cases w <;> rfl
+      rw [← hc]
+      exact children_propagate _
+    · intro hw
+      cases w with
+      | leaf f k => rfl
+      | comp f k cs => cases hw
   · intro fa ka fb kb ha hb fuel
     subst ha; subst hb; rfl
 
